@@ -198,7 +198,11 @@ Qed.
 
 End Main.
 
-(* premises satisfiable *)
+(* premises satisfiable: a tree of size 3 exists (1 <= n <= size t, 1 <= i <= j <= size t) *)
+Example aht_size_premises_sat (H : bytes -> bytes) :
+  size (aht_run H [OAppend [1]; OAppend [2]; OAppend [3]]) = 3.
+Proof. destruct (aht_append_inv H [OAppend [1]; OAppend [2]; OAppend [3]]) as (_ & Sz & _). exact Sz. Qed.
+
 Example aht_reset_append_premises_sat :
   2 <= lenN (final_payloads [OAppend [1]; OAppend [2]; OAppend [3]]).
 Proof. cbv. discriminate. Qed.
